@@ -72,7 +72,14 @@ except Exception:
     pass
 meta["confirmed_by_coordinator"] = {k: res.get(k) for k in ("patch_applies", "builds", "demo_passes_without", "demo_fails_with_change", "existing_tests")}
 meta["demo_failure_excerpt"] = res.get("demo_failure_excerpt", "")
-meta["checks_run"] = res["checks"]
+# a later run against improved checks keeps the results of the checks it did not repeat
+prev = {}
+try:
+    prev = json.load(open(os.path.join(dst, "meta.json"))).get("checks_run", {})
+except Exception:
+    pass
+prev.update(res["checks"])
+meta["checks_run"] = prev
 meta["repo_head"] = subprocess.run("git -C /repo rev-parse --short HEAD", shell=True, capture_output=True, text=True).stdout.strip()
 json.dump(meta, open(os.path.join(dst, "meta.json"), "w"), indent=1)
 print(json.dumps({k: v for k, v in res.items() if k != "demo_failure_excerpt"}, indent=1))
